@@ -182,8 +182,13 @@ func main() {
 			defer wg.Done()
 			sem <- struct{}{}
 			defer func() { <-sem }()
-			rep := cs[0]
-			ok := c.confirm(rep.k, c.refs[rep.k.Workload], rep.v, 5)
+			// the class is confirmed by its first member that reproduces 5/5 (at most
+			// three members are tried)
+			rep, ok := cs[0], false
+			for i := 0; i < len(cs) && i < 3 && !ok; i++ {
+				rep = cs[i]
+				ok = c.confirm(rep.k, c.refs[rep.k.Workload], rep.v, 5)
+			}
 			cmu.Lock()
 			defer cmu.Unlock()
 			if !ok {
@@ -194,8 +199,10 @@ func main() {
 			}
 			confirmed++
 			var also []string
-			for _, o := range cs[1:] {
-				also = append(also, o.k.String())
+			for _, o := range cs {
+				if o.k != rep.k {
+					also = append(also, o.k.String())
+				}
 			}
 			d := rep.v.Detail
 			if len(also) > 0 {
@@ -205,6 +212,11 @@ func main() {
 				d += fmt.Sprintf("  [same class, single run each: %s]", strings.Join(also, ", "))
 			}
 			c.run.Report(rep.v.Sig, rep.k, d)
+			for _, o := range cs {
+				if o.k != rep.k {
+					c.run.Report(o.v.Sig, o.k, o.v.Detail) // same class: counted, not listed again
+				}
+			}
 		}(key, cs)
 	}
 	wg.Wait()
